@@ -23,6 +23,11 @@ type Ctx struct {
 	wp   *whole // lazily built whole-program facts (call graph etc.)
 
 	lf        *lockFacts
+	cg        *callGraph
+	cgGo      []goSite
+	isModFn   map[*ssa.Function]bool
+	byObj     map[*types.Func]*ssa.Function
+	implCache map[*types.Func][]*ssa.Function
 	lres      map[*ssa.Function]*lockResult
 	lentry    map[*ssa.Function]map[lockKey]string
 	silent    bool // engines evaluate without recording (wrapper summaries)
